@@ -98,8 +98,10 @@ MUT = {
          sub(FAC, '0: {FieldNum: 6 /* speed */, Scale: 100, Bits: 12},', '0: {FieldNum: 66 /* speed */, Scale: 100, Bits: 12},')),
         ('G13', 'one untyped constant edited (fieldnum.RecordHeartRate = 4)', sub('profile/untyped/fieldnum/fieldnum_gen.go', 'RecordHeartRate                                   = 3   //', 'RecordHeartRate                                   = 4   //')),
         ('G14', 'profile type mapped to another base type (profile_gen.go: profile.File → basetype.Uint8)', 'ptbase'),
+        ('G16', 'a type constant renamed in String() only (typedef.Activity: "manual" → "Manual")',
+         sub('profile/typedef/activity_gen.go', 'case ActivityManual:\n\t\treturn "manual"', 'case ActivityManual:\n\t\treturn "Manual"')),
         ('G15', 'units string of one field edited (record.heart_rate "bpm" → "BPM")',
-         sub(FAC, '3:   {Name: "heart_rate", Num: 3, Type: profile.Uint8, BaseType: basetype.Uint8, Scale: 1, Units: "bpm"},', '3:   {Name: "heart_rate", Num: 3, Type: profile.Uint8, BaseType: basetype.Uint8, Scale: 1, Units: "BPM"},')),
+         sub(FAC, '3: {Name: "heart_rate", Num: 3, Type: profile.Uint8, BaseType: basetype.Uint8, Scale: 1, Units: "bpm"},', '3: {Name: "heart_rate", Num: 3, Type: profile.Uint8, BaseType: basetype.Uint8, Scale: 1, Units: "BPM"},')),
     ],
 }
 
